@@ -37,6 +37,10 @@ def to_py(c):
         return c[1] / c[2]
     if t == "s":
         return c[1]
+    if t == "b":          # a bool probe (only in the harness' own re-queries: the model has no bool)
+        return bool(c[1])
+    if t == "z":          # negative zero (likewise)
+        return -0.0
     raise ValueError(c)
 
 
@@ -157,10 +161,57 @@ def match_twin(op):
     return dict(op, kws=kws) if changed else None
 
 
+def number_spellings(cell):
+    """the other ways to write the same integral number: 1 / 1.0 / True, 0 / 0.0 / -0.0 / False, n / float(n) - all == and all
+    hashed alike, but each formats to its own pattern"""
+    if cell[0] == "i":
+        n = cell[1]
+    elif cell[0] == "f" and cell[2] == 1:
+        n = cell[1]
+    elif cell[0] == "b":
+        n = int(bool(cell[1]))
+    elif cell[0] == "z":
+        n = 0
+    else:
+        return []
+    fam = [["i", n], ["f", n, 1]]
+    if n in (0, 1):
+        fam.append(["b", n])
+    if n == 0:
+        fam.append(["z"])
+    return [x for x in fam if x != list(cell)]
+
+
+def match_spellings(op):
+    """for a where by keywords in which some keyword is compared by match with an integral number: the same where with that
+    number written in each of the other ways (see number_spellings); [] when there is no such keyword"""
+    if op.get("op") != "where" or op.get("pred") or not op.get("kws"):
+        return []
+    out = []
+    for k in range(3):
+        kws, changed = [], False
+        for col, arg in op["kws"]:
+            new = arg
+            if "d" in arg:
+                if arg["d"][0] == "match" and "v" in arg["d"][1]:
+                    alt = number_spellings(arg["d"][1]["v"])
+                    if k < len(alt):
+                        new = {"d": ["match", {"v": alt[k]}]}
+            elif op.get("pos") == "match" and "v" in arg:
+                alt = number_spellings(arg["v"])
+                if k < len(alt):
+                    new = {"v": alt[k]}
+            changed = changed or new is not arg
+            kws.append([col, new])
+        if changed:
+            out.append(dict(op, kws=kws))
+    return out
+
+
 def n_match(c, a):
     if c is None or is_missing(c):
         return False
-    if is_num(a):
+    if is_num(a) or isinstance(a, bool):      # `isinstance(arg, Number)`: True / False are numbers too
         if is_num(c):
             return c == a
         if isinstance(c, str):
@@ -373,15 +424,17 @@ def insert_payload(op):
     raise ValueError(sh)
 
 
-def where_call(t, op, cols):
+def where_call(t, op, cols, live=None, watch=None):
+    """`watch` collects (keyword, object, copy) for every list handed to the call: the caller's lists must be as they were afterwards"""
     kwargs = {}
     for col, arg in op["kws"]:
         if "f" in arg:
             kwargs[col] = cellpred_fn(arg["f"])
-        elif "d" in arg:
-            kwargs[col] = {arg["d"][0]: argv_wrap(arg["d"][1])}
-        else:
-            kwargs[col] = argv_wrap(arg)
+            continue
+        obj = argv_wrap(arg["d"][1] if "d" in arg else arg, live)
+        if watch is not None and type(obj) is list:
+            watch.append((col, obj, list(obj)))
+        kwargs[col] = {arg["d"][0]: obj} if "d" in arg else obj
     pred = rowpred_fn(op["pred"], cols) if op.get("pred") else None
     if op.get("pos") is not None:
         return t.where(pred, op["pos"], **kwargs)
@@ -410,13 +463,15 @@ def as_range(vs):
     return None
 
 
-def argv_wrap(a):
+def argv_wrap(a, live=None):
     """the probe collection in the flavour the case asks for: every one of them is `collections.abc.Iterable and not str`,
     which is what the code tests to take a bare argument for a collection (`in`)"""
     if "v" in a:
         return to_py(a["v"])
-    vs = [to_py(x) for x in a["l"]]
     kind = a.get("as", "list")
+    if kind == "livecol" and live is not None and tuple(a["src"]) in live:
+        return live[tuple(a["src"])]          # the very column object `table[col]` hands out
+    vs = [to_py(x) for x in a["l"]]
     if kind == "tuple":
         return tuple(vs)
     if kind == "set":
@@ -536,6 +591,32 @@ class Runner:
         self.suspect = {}    # table id -> signature of the failed operation that produced it (or an ancestor of it)
         self.cur_t = None
         self.last_sig = None
+        self.live = {}       # (table id, column) -> the column object handed to the current where as a probe collection
+
+    def resolve(self, op, tables):
+        """a probe collection given as {"col": [table id, column]} is the live column `tables[id][column]` (a list of a table
+        that owns its lists, a view's ListView / SliceView otherwise): for the plain evaluation and for the model it is the list
+        of its present cells; the call itself gets the object.  ([] when there is no such table / column.)"""
+        self.live = {}
+        if op["op"] != "where" or not any("col" in (a["d"][1] if "d" in a else a) for _, a in op["kws"]):
+            return op
+        kws = []
+        for col, arg in op["kws"]:
+            inner = arg["d"][1] if "d" in arg else arg
+            if "col" in inner:
+                tid, c = inner["col"]
+                new = {"l": [], "as": "list"}
+                try:
+                    src = tables[tid] if 0 <= tid < len(tables) else None
+                    if src is not None and c in list(src.columns):
+                        obj = src[c]
+                        new = {"l": [from_py(x) for x in obj], "as": "livecol", "src": [tid, c]}
+                        self.live[(tid, c)] = obj
+                except Exception:  # noqa
+                    new = {"l": [], "as": "list"}
+                arg = {"d": [arg["d"][0], new]} if "d" in arg else new
+            kws.append([col, arg])
+        return dict(op, kws=kws)
 
     def fail(self, what, sig):
         # a table returned by an operation that already violated the property (e.g. a view with repeated / unordered row
@@ -569,6 +650,7 @@ class Runner:
                 self.tags.append("skip:" + k)
                 continue
             t = tables[op["t"]]
+            op = self.resolve(op, tables)
             if t is None:
                 self.obs.append({"skip": True})
                 self.model_ops.append(self.model_op(op, []))
@@ -601,6 +683,14 @@ class Runner:
                     except Exception:  # noqa
                         pass
             getattr(self, "do_" + k)(n, op, t, tables, cols, rows, idx)
+            if k in ("groupby", "copy"):
+                try:
+                    after = snap(t)
+                except Exception as e:  # noqa
+                    after = ("raised", repr(e))
+                if after != (cols, rows):
+                    self.fail("op #%d %s changed what the table shows: before %s %s, after %s" % (n, k, cols, rows[:12], after[1][:12] if isinstance(after[1], list) else after),
+                              k + "-changes-a-table")
             if tables[op["t"]] is not None:
                 # the mutation went through: look once at every other object that shows the same lists
                 for j, sibling in p.get("aliases", []):
@@ -935,15 +1025,47 @@ class Runner:
             exp, undefined = None, True
             self.tags.append("where:plain-evaluation-raises")
         self.naive[n] = None if undefined else [[from_py(v) for v in r] for r in exp]
+        watch = []
+        others = {}
+        for (tid, c) in self.live:
+            if tid != op["t"] and tables[tid] is not None:
+                try:
+                    others[tid] = snap(tables[tid])
+                except Exception:  # noqa
+                    pass
         try:
-            r = where_call(t, op, cols)
+            r = where_call(t, op, cols, self.live, watch)
             cols2, rows2 = snap(r)
             err = None
         except Exception as e:  # noqa
             r, err = None, e
         tables.append(r)
         self.obs.append(observe(r) if err is None else {"err": errname(err)})
-        if undefined:
+        # a query changes neither the table it is asked of, nor any other table, nor the objects it is given
+        desc0 = "where(%s%s)" % (("pos=%r, " % op["pos"]) if op.get("pos") else "", "row_pred" if op.get("pred") else json.dumps(op["kws"]))
+        changed = False
+        for tid, before in [(op["t"], (cols, rows))] + sorted(others.items()):
+            try:
+                after = snap(tables[tid])
+            except Exception as e:  # noqa
+                after = ("raised", repr(e))
+            if after != before:
+                changed = True
+                self.tags.append("where:changed-a-table")
+                self.fail("op #%d %s asked of table %d changed what table %d shows: before %s %s, after %s"
+                          % (n, desc0, op["t"], tid, before[0], before[1][:12], after[1][:12] if isinstance(after[1], list) else after), "where-changes-a-table")
+                break
+        if not changed:
+            for kw, obj, was in watch:
+                if len(obj) != len(was) or any(x is not y for x, y in zip(obj, was)):
+                    self.fail("op #%d %s: the list given for %r was %s before the call and is %s after it" % (n, desc0, kw, was[:12], obj[:12]), "where-changes-its-argument")
+                    changed = True
+                    break
+        if watch:
+            self.tags.append("where:list-argument-watched")
+        if self.live:
+            self.tags.append("where:probes-are-a-live-column:" + ("own-table" if any(tid == op["t"] for tid, _ in self.live) else "other-table"))
+        if undefined or changed:
             return
         desc = "where(%s%s)" % (("pos=%r, " % op["pos"]) if op.get("pos") else "", "row_pred" if op.get("pred") else json.dumps(op["kws"]))
         if err is not None:
@@ -969,17 +1091,17 @@ class Runner:
         """a query is answered from its own arguments: after a `match` with an integral number the same table is asked the same
         with the number written the other way (1 / 1.0: equal, but other patterns) and then the first question again; each answer
         must be its own plain row-by-row evaluation.  (Nothing is added to the case: the extra wheres are read-only.)"""
-        tw = match_twin(op)
-        if tw is None:
+        tws = match_spellings(op)
+        if not tws:
             return
         self.tags.append("where:match:asked-again-with-the-number-written-the-other-way")
-        for what, q in (("the same number written the other way", tw), ("the first question again", op)):
+        for what, q in [("the same number written another way", tw) for tw in tws] + [("the first question again", op)]:
             try:
                 exp = naive_where(cols, rows, q)
             except Undefined:
                 return
             try:
-                _, rows2 = snap(where_call(t, q, cols))
+                _, rows2 = snap(where_call(t, q, cols, self.live))
             except Exception as e:  # noqa
                 self.fail("op #%d %s answered correctly; then %s, where(%s), raised %r; plain evaluation gives %s"
                           % (n, desc, what, json.dumps(q["kws"]), e, exp[:12]), "where-match-answer-depends-on-earlier-queries")
@@ -1127,7 +1249,7 @@ class Gen:
             if r.chance(0.5):
                 return ["f", x, 2] if x % 2 else ["f", x // 2, 1]
             return ["i", x // 2 if x % 2 == 0 else r.choice([0, 1, 2])]
-        return ["s", r.choice(["a", "b", "b", "ab", "ba", "c", "a1", "12", "1", "", "1.0", "v1", "2.0", "10"])]
+        return ["s", r.choice(["a", "b", "b", "ab", "ba", "c", "a1", "12", "1", "", "1.0", "v1", "2.0", "10", "0.0"])]
 
     def probe(self, col, wide=True):
         """a probe value: usually from the column's alphabet, sometimes outside the data range / another type"""
@@ -1185,6 +1307,13 @@ class Gen:
         r = self.r
         if not coll:
             return {"v": self.probe(col)}
+        if getattr(self, "_live", None) and r.chance(0.12):
+            # the probes are a live column of this or another table (t.where(a=other['id']), t.where(a={'!in': t['b']})):
+            # an object the caller keeps using - the query must leave it, and every table, as it was
+            tid, tcols = r.choice(self._live)
+            if tcols:
+                same = [c for c in tcols if self.kind.get(c) == self.kind.get(col)]
+                return {"col": [tid, r.choice(same) if same and r.chance(0.8) else r.choice(tcols)]}
         n = r.choice([0, 1, 2, 2, 3, 4])
         vs = [self.probe(col) for _ in range(n)]
         if vs and allow_dup and r.chance(0.3):
@@ -1250,9 +1379,9 @@ class Gen:
         r = self.r
         # numbers come as int and as float: 1 and 1.0 are equal but format to different patterns ('1' / '1.0', the dot unescaped)
         if self.kind[col] in ("int", "num") and r.chance(0.6):
-            return r.choice([["i", 0], ["i", 1], ["i", 2], ["i", 3], ["i", 12], ["f", 1, 1], ["f", 2, 1], ["f", 1, 2]])
+            return r.choice([["i", 0], ["i", 1], ["i", 2], ["i", 3], ["i", 12], ["f", 1, 1], ["f", 2, 1], ["f", 1, 2], ["f", 0, 1]])
         return r.choice([["s", "a"], ["s", "b"], ["s", "ab"], ["s", "1"], ["s", "2"], ["s", ""], ["i", 1], ["i", 12], ["s", "on"],
-                         ["i", 1], ["f", 1, 1], ["i", 2], ["f", 2, 1], ["f", 12, 1], ["i", 10], ["f", 10, 1]])
+                         ["i", 1], ["f", 1, 1], ["i", 2], ["f", 2, 1], ["f", 12, 1], ["i", 10], ["f", 10, 1], ["i", 0], ["f", 0, 1]])
 
     def where(self, t, cols, idx):
         r = self.r
@@ -1390,6 +1519,8 @@ class Gen:
             elif x < 82:
                 if not t["cols"]:
                     continue
+                self._live = [(i, list(tabs[i]["cols"])) for i in live]
+                self._live = [(ti, list(t["cols"]))] * 2 + self._live       # the table's own columns most often
                 ops.append(self.where(ti, t["cols"], t["idx"]))
                 tabs.append({"cols": list(t["cols"]), "idx": list(t["idx"]), "view": True, "data": t["data"], "dead": False})
                 tw = match_twin(ops[-1])
@@ -1467,11 +1598,13 @@ def plain_snippet(case):
     """the case as a plain script against coba (no harness): prints every table / result"""
     def lit(c):
         t = c[0]
-        return {"n": "None", "m": "Missing"}.get(t) or (repr(c[1]) if t in "is" else repr(c[1] / c[2]))
+        return {"n": "None", "m": "Missing"}.get(t) or (repr(c[1]) if t in "is" else repr(to_py(c)))
 
     def av(a):
         if "v" in a:
             return lit(a["v"])
+        if "col" in a:
+            return "t%d[%r]" % (a["col"][0], a["col"][1])      # the live column of a table
         inner = ", ".join(lit(x) for x in a["l"])
         k = a.get("as", "list")
         if k == "tuple":
@@ -1546,7 +1679,8 @@ def plain_snippet(case):
             s = "None" if s is None else repr(s) if isinstance(s, str) else repr(s["one"]) if "one" in s else repr(list(s["many"]))
             out.append("print(list(%s.groupby(%d, %s)))" % (t, op["level"], s))
         elif k == "where":
-            def wargs(op):
+            def wargs(op, names=None):
+                names = names or {}
                 args = []
                 if op.get("pred"):
                     args.append("lambda r: %s  # r = row in the order of %s.columns" % (rp(op["pred"], _cols_at(case, op)), t))
@@ -1558,19 +1692,34 @@ def plain_snippet(case):
                     if "f" in a:
                         args.append("%s=lambda c: %s" % (c, cp(a["f"])))
                     elif "d" in a:
-                        args.append("%s={%r: %s}" % (c, a["d"][0], av(a["d"][1])))
+                        args.append("%s={%r: %s}" % (c, a["d"][0], names.get(c) or av(a["d"][1])))
                     else:
-                        args.append("%s=%s" % (c, av(a)))
+                        args.append("%s=%s" % (c, names.get(c) or av(a)))
                 return ", ".join(args)
             if op.get("pred"):
                 out.append("t%d = %s.where(%s\n)" % (nt, t, wargs(op)))
                 out.append("print(list(t%d))" % nt)
             else:
-                out.append("t%d = %s.where(%s); print(list(t%d))" % (nt, t, wargs(op), nt))
-            tw = match_twin(op)
-            if tw is not None:
-                # what Runner.requery_match asks: the number written the other way, then the first question again
-                out.append("print('the number written the other way:', list(%s.where(%s)))" % (t, wargs(tw)))
+                # lists the caller owns get a name so that they can be looked at afterwards; so do tables whose column is the argument
+                names, after = {}, []
+                for c, a in op["kws"]:
+                    inner = a["d"][1] if "d" in a else a
+                    if "l" in inner and inner.get("as", "list") == "list" and inner["l"]:
+                        names[c] = "probes_%d_%s" % (nt, c)
+                        out.append("%s = %s" % (names[c], av(inner)))
+                        after.append("print('the list given for %s is now', %s)" % (c, names[c]))
+                    if "col" in inner:
+                        for tid in sorted({inner["col"][0], op["t"]}):
+                            line = "print('t%d now shows', list(t%d))" % (tid, tid)
+                            if line not in after:
+                                after.append(line)
+                out.append("t%d = %s.where(%s); print(list(t%d))" % (nt, t, wargs(op, names), nt))
+                out.extend(after)
+            tws = match_spellings(op)
+            if tws:
+                # what Runner.requery_match asks: the number written the other ways, then the first question again
+                for tw in tws:
+                    out.append("print('the number written another way:', list(%s.where(%s)))" % (t, wargs(tw)))
                 out.append("print('the first question again:', list(%s.where(%s)))" % (t, wargs(op)))
             nt += 1
     res = out[:4]
@@ -1611,7 +1760,10 @@ class C17(Property):
             "to leave the rows in index order or to drop the index; on a tree with the insert repair the data-only side conditions OKL and the invariant "
             "invB are evaluated along the history (ops_inv_refine, inv_reachable, where_reachable_eq_scan); `match` probes are ints and floats (1 / 1.0 / 2 / 2.0 / 10 / 12), "
             "60 % of the match queries are followed by the same query with the number written the other way (same or another table), and after every such query the "
-            "harness itself asks the other spelling and the first one again: every answer must be the plain evaluation of its own probe, whatever was asked before in the process")
+            "harness itself asks every other spelling (1 / 1.0 / True, 0 / 0.0 / -0.0 / False, n / float(n)) and the first one again: every answer must be the plain evaluation "
+            "of its own probe, whatever was asked before in the process; 12 % of the probe collections are a live column of the same or another live table (`t.where(a=other['b'])`); "
+            "after every where the table asked, every table whose column was given and every list given must be exactly as before (a query changes neither its arguments nor any table); "
+            "groupby and copy likewise leave their table as it was")
     trusted_base = [
         "Python's sorted() is modelled as 'TypeError iff two non-Missing members are incomparable, else the stable arrangement' (checked exhaustively "
         "against CPython for lists up to 5 over the value kinds); bisect_left/right as the textbook loop (same probes as CPython's C code)",
@@ -1630,7 +1782,10 @@ class C17(Property):
         "earlier one; TypeError iff two cells cannot be ordered), otherwise the row-by-row `<` loop (tailOrd); outcomes le / gt / cannot = True / False / None; "
         "a TypeError inside the re-sort after partial permutation is modelled as 'lists restored, index dropped'",
         "`match` with a number: the pattern is f'(\\D|^){arg}(\\D|$)' of the probe of this very call, unescaped - the dot of a float probe (1.0) stands for any "
-        "character (patPrefix); equal numbers written differently (1 / 1.0) are different patterns. Bool probes and cells with newlines are outside the alphabet",
+        "character (patPrefix); equal numbers written differently (1 / 1.0) are different patterns. Bool and -0.0 probes exist only in the harness' own re-queries "
+        "(checked against the plain evaluation (B), not sent to the model: Cell has neither bool nor signed zero); cells with newlines are outside the alphabet",
+        "a probe collection given as a live column is resolved when the operation runs: plain evaluation and model see the list of its present cells, the call gets the "
+        "object `table[column]` itself (a list for a table that owns its lists, a ListView / SliceView for a view)",
     ]
     assumptions = [
         "row_pred and keyword arguments are not combined in one call (the code ignores the keywords; the documentation does not say what is meant)",
@@ -1716,6 +1871,17 @@ class C17(Property):
         cs.append(mk("ab", two, IX(0, "a", "b"), INS(["M", 1], ["M", 0]), W(0, a=V(2)), W(0, b=V(1)), INS(["M", 3], ["M", 4]), W(0, b=V(4))))
         cs.append(mk("abc", [[1, 0, "p"], [1, 1, "q"]], IX(0, "a", "b"), INS([1, 2, "r"], [2, 3, "s"], [1, 4, "t"]), W(0, a=V(2)), W(0, a=V(1)), W(0, b={"d": [">=", V(3)]}),
                      {"op": "groupby", "t": 0, "level": 1, "select": "count"}))
+        # the probes are a live column of another table / of the table itself, or a list the caller owns: a query changes none of them
+        def C(t, c):
+            return {"col": [t, c]}
+        tt = [[1, 5, "r0"], [2, 3, "r1"], [3, 9, "r2"], [4, 1, "r3"], [5, 2, "r4"], [6, 2, "r5"]]
+        cs.append(mk("abc", tt, IX(0, "a"), W(0, a={"d": ["!in", C(0, "b")]}), W(0, b=V(2)), W(0, a={"d": ["in", C(0, "b")]}), W(0, a=C(0, "b")), W(0, b=V(2)),
+                     {"op": "groupby", "t": 0, "level": 0, "select": "count"}))
+        cs.append(mk("abc", tt, {"op": "copy", "t": 0}, IX(0, "a"), W(0, b={"d": [">=", V(2)]}), W(0, a=C(2, "b")), W(2, b=V(2)), W(0, a={"d": ["!in", C(2, "b")]}), W(2, a=C(0, "b"))))
+        cs.append(mk("ab", [[3, "x"], [1, "y"], [2, "z"]], IX(0, "a"), W(0, a=L(3, 1, 2)), W(0, a={"d": ["!in", L(3, 1, 2, 1)]}), W(0, pos="in", a=L(2, 1))))
+        # 0 / 0.0 / -0.0 / False and 1 / 1.0 / True on text cells (the harness asks the other spellings itself)
+        zs = [["x=0.0"], ["x=-0.0"], ["0"], ["v1.0"], ["110"], ["1"], ["1.0"], ["True"], ["is False"], ["0.0"]]
+        cs.append(mk("a", zs, W(0, a={"d": ["match", V(1.0)]}), W(0, a={"d": ["match", V(0.0)]}), W(0, pos="match", a=V(0)), W(0, pos="match", a=V(1))))
         # equal numbers written differently are different patterns; every query is answered from its own probe (also across tables)
         strs = [["1"], ["v1"], ["1.0"], ["11"], ["x1y0"], ["2"], ["2.0"], ["run 2"]]
         cs.append(mk("a", strs, W(0, a={"d": ["match", V(1)]}), W(0, a={"d": ["match", V(1.0)]}), W(0, a={"d": ["match", V(2.0)]}), W(0, a={"d": ["match", V(2)]}), W(0, a={"d": ["match", V(1)]})))
@@ -1931,6 +2097,23 @@ class C17(Property):
                         break
                     if o["t"] > made:
                         o["t"] -= 1
+                    if o["op"] == "where":
+                        # probe collections that are a live column of a table: same renumbering
+                        kws = []
+                        for c, a in o["kws"]:
+                            inner = a["d"][1] if "d" in a else a
+                            if "col" in inner:
+                                tid = inner["col"][0]
+                                if tid == made:
+                                    ok = False
+                                    break
+                                if tid > made:
+                                    inner = {"col": [tid - 1, inner["col"][1]]}
+                                    a = {"d": [a["d"][0], inner]} if "d" in a else inner
+                            kws.append([c, a])
+                        if not ok:
+                            break
+                        o["kws"] = kws
                 new.append(o)
             if ok:
                 yield {"init": init, "ops": new}
